@@ -1598,6 +1598,26 @@ where
                 }
             }
         }
+        // (4c) a claimed value missing for a queried combination (two combinations queried, one claim supplied)
+        {
+            let (lcs, qs, ev) = gen_lcs::<S>(&mut rng, &inst, 2, 1);
+            let mut sp = fresh_sponge();
+            if lcs.len() >= 2 && qs.len() >= 2 {
+                if let Ok(Ok(proof)) = guarded(|| S::PC::open_combinations(&inst.ck, &lcs, &inst.polys, &inst.comms, &qs, &mut sp, &inst.states, Some(&mut rng.clone()))) {
+                    let mut vs = fresh_sponge();
+                    let full = Outcome::from(guarded(|| S::PC::check_combinations(&inst.vk, &lcs, &inst.comms, &qs, &ev, &proof, &mut vs, &mut rng.clone())));
+                    for (l, (_, pt)) in qs.iter() {
+                        let mut ev_m = ev.clone();
+                        if ev_m.remove(&(l.clone(), pt.clone())).is_none() {
+                            continue;
+                        }
+                        let mut vs = fresh_sponge();
+                        let o = Outcome::from(guarded(|| S::PC::check_combinations(&inst.vk, &lcs, &inst.comms, &qs, &ev_m, &proof, &mut vs, &mut rng.clone())));
+                        refuse(ctx, &id, "check-missing-combination-evaluation", o.accepted(), format!("no claimed value for the queried combination {} (complete claims: {:?})", l, full));
+                    }
+                }
+            }
+        }
         // (5) wrong number of variables
         if let Some(nv) = sizes.num_vars {
             let wrong = Sizes { num_vars: Some(nv + 1), ..sizes.clone() };
